@@ -287,6 +287,7 @@ type ResetRec struct {
 	Step, Cut         int
 	Dlv               bool
 	DlvSeq            uint64
+	DlvCut            int
 	Quiet             bool            // delivered with nothing in flight and nothing parked
 	Must              map[string]bool // name?query that must be re-fetched
 }
